@@ -602,6 +602,27 @@ def check_located(case, rec):
         want = float(s1.integrate(f(gx) * f(gx) * function.J(gx[None])))
         if abs(got - want) > 1e-9 * (1 + abs(want)):
             raise Violation('integrate', f'zipped integral {got!r} != integral over the first sample {want!r}', where='zip:integrate')
+        # (1b) two located samples of the same points in a scrambled order (each leaves elements and comes back), zipped: the index of the zip
+        #      still advertises, per element, the positions at which evaluation reports that element's points
+        if not case['dim2'] and len(X) >= 3:
+            order = numpy.argsort((numpy.arange(len(X)) * 7919 + case['perm_seed']) % 1009, kind='stable')
+            Xp = X[order]
+            sa = tx.locate(gx[None], Xp[:, None], tol=1e-10, eps=1e-12)
+            sb = ty.locate(gy[None], Xp[:, None], tol=1e-10, eps=1e-12)
+            zz = sa.zip(sb)
+            va, vb = (numpy.asarray(q) for q in zz.eval([gx, gy]))
+            if not numpy.allclose(va, Xp, atol=1e-9) or not numpy.allclose(vb, Xp, atol=1e-9):
+                raise Violation('points', 'zip of two located samples does not evaluate in input order', where='zip2:order')
+            seen = []
+            for i in range(zz.nelems):
+                idx = numpy.asarray(zz.getindex(i))
+                seen.extend(idx.tolist())
+                sub = zz.take_elements(numpy.array([i]))
+                sv = numpy.sort(numpy.asarray(sub.eval(gx)))
+                if len(sv) != len(idx) or not numpy.allclose(sv, numpy.sort(va[idx]), atol=1e-12):
+                    raise Violation('index', f'zip: element {i} advertises positions {idx.tolist()} (points {va[idx].tolist()}) but holds the points {sv.tolist()}', where='zip2:index')
+            if sorted(seen) != list(range(zz.npoints)):
+                raise Violation('index', f'zip: the element indices {seen} are not a permutation of the points', where='zip2:index-permutation')
         # (2) locate with weights: integral is the weighted sum in input order
         k = min(len(X), 12)
         w = numpy.array(case['w'][:k])
